@@ -697,6 +697,7 @@ func Run(r *mon.Run) {
 		tlsNow = false
 	}
 	socketLane(r, e)
+	pacedLane(r, e)
 	r.Sample(Case{Patterns: []string{"/api", "/a/b"}, URLPath: "/api/v1/echo/xyz", Req: ReqSpec{Kind: "http", Verb: "GET", Path: "/v1/echo/xyz"}})
 	r.Sample(Case{Patterns: []string{"/", "/twirp"}, URLPath: "/twirp/vf.std.Std/Echo", Req: ReqSpec{Kind: "twirp", Verb: "POST", Path: "/vf.std.Std/Echo"}})
 	r.Assume("request paths are clean (net/http's ServeMux redirects unclean ones); the longest configured prefix wins, as in net/http; pattern sets that net/http itself refuses (duplicates) are not generated")
@@ -768,6 +769,107 @@ func socketLane(r *mon.Run, e *env) {
 		ccB.Close()
 		srv.Close()
 	}
+}
+
+// pacedLane: a bidi call whose client paces its messages over real h2c
+// listeners, on a mux built with a SMALL ConnectionTimeoutOption: mounted
+// through NewServer (root and /api) vs the same mux behind a plain h2c server.
+// The option names a connection set-up timeout; it must not cut streams that
+// are open for longer, mounted or not.
+func pacedLane(r *mon.Run, e *env) {
+	slow, err := e.std.NewMux(impl{&e.calls}, larking.ConnectionTimeoutOption(250*time.Millisecond))
+	if err != nil {
+		r.Inconclusive("paced lane mux: " + err.Error())
+		return
+	}
+	bare, err := wire.StartH2C(slow, nil)
+	if err != nil {
+		r.Inconclusive("listener: " + err.Error())
+		return
+	}
+	defer bare.Close()
+	srv, err := wire.StartLarking(slow, nil, larking.MuxHandleOption("/", "/api"))
+	if err != nil {
+		r.Violate("newserver-rejected-valid-patterns", err.Error(), nil)
+		return
+	}
+	defer srv.Close()
+	type res struct {
+		replies int
+		code    codes.Code
+		msg     string
+	}
+	call := func(addr, full string) res {
+		cc, err := wire.Dial(addr)
+		if err != nil {
+			return res{-1, codes.Unavailable, err.Error()}
+		}
+		defer cc.Close()
+		ctx, cancel := context.WithTimeout(context.Background(), 20*time.Second)
+		defer cancel()
+		st, err := cc.NewStream(ctx, &grpc.StreamDesc{ClientStreams: true, ServerStreams: true}, full)
+		if err != nil {
+			return res{-1, status.Code(err), status.Convert(err).Message()}
+		}
+		var out res
+		for i := 0; i < 3; i++ {
+			if i > 0 {
+				time.Sleep(400 * time.Millisecond)
+			}
+			in := vschema.NewMsg(vschema.Msg("vf.Chunk"))
+			protojson.Unmarshal(chunkJSON(fmt.Sprintf("p%d", i)), in)
+			if err := st.SendMsg(in); err != nil {
+				break
+			}
+			rep := vschema.NewMsg(vschema.Msg("vf.Chunk"))
+			if err := st.RecvMsg(rep); err != nil {
+				out.code, out.msg = status.Code(err), status.Convert(err).Message()
+				return out
+			}
+			out.replies++
+		}
+		st.CloseSend()
+		for {
+			rep := vschema.NewMsg(vschema.Msg("vf.Chunk"))
+			err := st.RecvMsg(rep)
+			if err == io.EOF {
+				return out
+			}
+			if err != nil {
+				out.code, out.msg = status.Code(err), status.Convert(err).Message()
+				return out
+			}
+			out.replies++
+		}
+	}
+	var wg sync.WaitGroup
+	results := make([]res, 3)
+	for i, tgt := range []struct{ addr, full string }{{bare.Addr, e.std.Full("Bidi")}, {srv.Addr, e.std.Full("Bidi")}, {srv.Addr, "/api" + e.std.Full("Bidi")}} {
+		wg.Add(1)
+		go func(i int, addr, full string) {
+			defer wg.Done()
+			results[i] = call(addr, full)
+		}(i, tgt.addr, tgt.full)
+	}
+	wg.Wait()
+	r.Eval(2)
+	want := results[0]
+	if want.replies != 3 || want.code != codes.OK {
+		r.Inconclusive(fmt.Sprintf("paced reference call on the plain h2c server: %+v", want))
+		return
+	}
+	for i, name := range []string{"", "root mount", "/api mount"} {
+		if i == 0 {
+			continue
+		}
+		if results[i] != want {
+			r.Violate("mounted-differs-from-bare:paced-stream", fmt.Sprintf("a bidi call with 400 ms between its messages on a mux with ConnectionTimeoutOption(250ms): %s gives %+v, the same mux behind a plain h2c server %+v", name, results[i], want), map[string]any{"mount": name})
+			return
+		}
+	}
+	r.Count("paced_stream_pairs", 2)
+	r.Distinct("paced-stream/root")
+	r.Distinct("paced-stream/api")
 }
 
 func postWeb(url string, body []byte) string {
